@@ -131,7 +131,7 @@ static void do_unpackbytes(int n, int dst)
 	/* dst == 2: the output array lies where the cursor stands (a record whose body follows its header in memory, the packer
 	 * covering the header only): used when the item does not fit - the array must come back zero-filled like any other */
 	long at = rf_pack_consumed(&pk);
-	if (dst == 2 && !is_big && n > 0 && at >= 0 && at + n <= asize && rf_pack_remaining(&pk) < n) {
+	if (dst == 2 && !is_big && n > 0 && at >= size && at + n <= asize && rf_pack_remaining(&pk) < n) {   /* at or past the end of what the packer covers */
 		memset(buf + at, 0x77, n);
 		rf_unpack_bytes(&pk, buf + at, n);
 		memcpy(d, buf + at, n);
